@@ -99,6 +99,7 @@ pub fn clocks_line(ln: &Value, rep: &mut Report, known: &Known) {
             chk(rep, &["C10", "C16"], "validate_op", json!(v), ln["vop"][a][i].clone());
             let from: VClock<u8> = VClock::from(dot);
             chk(rep, &["C10"], "zero_counter", json!(has_zero(&from)), json!(false));
+            chk(rep, &["C10"], "from_dot", clock_json(&from, n), ln["single"][a][i].clone());
         }
         for b in 0..n {
             let d1 = Dot::new(actor, cv[a]);
